@@ -96,7 +96,7 @@ def _case(draw, knob):
     if knob in ("final_return_undocumented", "final_return_constant"):
         route = draw(st.sampled_from(("function", "method")))
     ir = draw(domain.ir_strategy(allowed=CORE_ALLOWED, min_params=0, max_params=4, argparse_only=True,
-                                 base_exclude=("int_literal", "none_default", "required_bool", "single_literal")))
+                                 base_exclude=()))
     ir.pop("returns", None)
     params = [p["name"] for p in ir["params"] if not p["name"].endswith("kwargs")]
     if not params and route == "argparse":
